@@ -34,6 +34,7 @@ import (
 //     parameter (naga emits parameters in global-variable order, so both sequences are ascending N);
 //   - otherwise Exec returns *xrt.Unsupported (an entry point that does not use every runtime-sized
 //     global: pass SizesOrder).
+//
 // A member whose binding has no buffer in bufs is poison (reading it traps).
 type Opts struct {
 	xrt.Opts
@@ -48,6 +49,9 @@ type Opts struct {
 	SizesOrder []xrt.Binding
 	// WorkgroupSize is the threadgroup size (not part of the MSL text); zero components mean 1.
 	WorkgroupSize [3]uint32
+	// StrictShifts makes << and >> with a negative count or a count >= 32 a "shift-range" trap (the
+	// C++14 rule). By default the MSL rule applies: the count is taken modulo 32.
+	StrictShifts bool
 }
 
 // Kernels lists the kernel functions of the program.
@@ -174,7 +178,7 @@ func (p *Program) Exec(bufs xrt.Buffers, o Opts) (err error) {
 
 	// module-scope constants
 	gmem := &Mem{cells: make([]cell, p.globalCells), name: "constants"}
-	gx := &exec{prog: p, sh: sh, gmem: gmem, poison: o.PoisonLocals}
+	gx := &exec{prog: p, sh: sh, gmem: gmem, poison: o.PoisonLocals, strictShift: o.StrictShifts}
 	gx.fr = &frame{}
 	for _, g := range p.globals {
 		if g.t.Kind == KOpaque || g.init == nil {
@@ -295,7 +299,7 @@ func (p *Program) Exec(bufs xrt.Buffers, o Opts) (err error) {
 				for lz := uint32(0); lz < wgs[2]; lz++ {
 					for ly := uint32(0); ly < wgs[1]; ly++ {
 						for lx := uint32(0); lx < wgs[0]; lx++ {
-							x := &exec{prog: p, sh: sh, gmem: gmem, wg: wg, poison: o.PoisonLocals}
+							x := &exec{prog: p, sh: sh, gmem: gmem, wg: wg, poison: o.PoisonLocals, strictShift: o.StrictShifts}
 							fr := &frame{refs: append([]Ref(nil), refs...)}
 							fr.mem.cells = make([]cell, k.frameCells)
 							fr.mem.name = k.name
